@@ -76,6 +76,7 @@ def edge_pipeline(cfg: str, src: str, seed: int, histories: dict | None, full: b
         tamper_at = next((i for i, e in enumerate(t0) if e["op"]["op"] == "GetCellSize" and e["op"]["res"] != [0, 0]), None)
         if tamper_at is not None:
             t0[tamper_at]["op"]["res"] = [t0[tamper_at]["op"]["res"][0] + 1, t0[tamper_at]["op"]["res"][1]]
+            t0[tamper_at]["allowed"] = [t0[tamper_at]["op"]["res"]]
             p, od = c15_run.launch(dict(src=src, tours=[t0[: tamper_at + 1]]), "tamper")
             r = c15_run.collect(p, od, timeout=120)["replay"]
             out["tamper_rejected"] = bool(r["divergences"] and r["divergences"][0]["idx"] == tamper_at)
@@ -85,7 +86,8 @@ def edge_pipeline(cfg: str, src: str, seed: int, histories: dict | None, full: b
     p, od = c15_run.launch(job, cfg.split(".")[0][-12:])
     r = c15_run.collect(p, od, timeout=900)
     rp = r["replay"]
-    out.update(tours=rp["tours"], ops=rp["ops"], traces=r.get("traces", []), garbage=r.get("garbage", ""))
+    out.update(tours=rp["tours"], ops=rp["ops"], drift=rp.get("drift", 0), traces=r.get("traces", []),
+               garbage=r.get("garbage", ""))
     if rp["tours"] != len(tours) and not rp["divergences"]:
         raise tlc.MachineryError(f"{cfg}: worker executed {rp['tours']} of {len(tours)} tours")
     seen = set()
@@ -126,7 +128,7 @@ def report_edges(rep: Report, out: dict, cover: dict):
     rep.traces_validated += out["tours"]
     rep.evaluations += out["ops"]
     rep.distinct.update((cfg, i) for i in range(out["edges"]))
-    rep.extra.setdefault("replay", {})[cfg] = {k: out.get(k) for k in ("edges", "nodes", "inits", "tours", "ops", "tamper_rejected")}
+    rep.extra.setdefault("replay", {})[cfg] = {k: out.get(k) for k in ("edges", "nodes", "inits", "tours", "ops", "drift", "tamper_rejected")}
     rep.extra["replay"][cfg].update(states=res.distinct, transitions=res.generated)
     if out.get("tamper_rejected") is False and not out["divergences"]:
         raise tlc.MachineryError(f"{cfg}: a tampered edge was not rejected by the replay")
@@ -138,12 +140,14 @@ def report_edges(rep: Report, out: dict, cover: dict):
                   "GetColors": "MemoFresh", "GetName": "MemoFresh"}.get(op["op"], "Conformance")
         if d["what"] == "body-count":
             clause = "BodyOnce"
+        if op["op"] == "GetRatio" and not (d.get("allowed_prefix") or [[]])[-1]:
+            clause = "RatioFixed"
         hist = [[o["op"], o["arg"]] for o in d["prefix"]]
         rep.violation(
             f"replay:{op['op']}:{clause}:{d['what']}",
             f"[{cfg}] after {len(hist) - 1} operations on terminal {d['env']}: {op['op']}{op['arg']} {d['detail']} "
             f"(real: {d['real']})\nhistory (last 12): {hist[-12:]}",
-            {"kind": "ops", "env": d["env"], "expect": d["prefix"]},
+            {"kind": "ops", "env": d["env"], "expect": d["prefix"], "allowed": d.get("allowed_prefix")},
         )
 
 
@@ -204,7 +208,7 @@ def main(rep: Report, replay: dict | None) -> None:
     if replay:
         sc = replay["scenario"]
         if sc.get("kind") == "ops":
-            tour = [{"op": o} for o in sc["expect"]]
+            tour = [{"op": o, "allowed": a} for o, a in zip(sc["expect"], sc.get("allowed") or [[]] * len(sc["expect"]))]
             # initial library state is the model's; the environment is the scenario's
             tour[0]["from"] = [sc["env"]]
             p, od = c15_run.launch(dict(src=src, tours=[tour]), "replay")
@@ -213,9 +217,8 @@ def main(rep: Report, replay: dict | None) -> None:
             for d in r["divergences"]:
                 rep.violation(f"replay:{d['op']['op']}:{d['what']}", f"{d['detail']} (real: {d['real']})", sc)
         elif sc.get("kind") == "history":
-            validate_histories(rep, [sc["trace"]], ["recorded"], selfcheck=False)
-            if rep.violations:
-                return
+            # re-run the recorded history against the code under test (the recorded trace itself is
+            # kept in the file for reference)
             p, od = c15_run.launch(dict(src=src, scenario={"env": sc["env"], "ops": sc["ops"]}), "replay")
             r = c15_run.collect(p, od, timeout=300)
             validate_histories(rep, r["traces"], ["re-run"], selfcheck=False)
